@@ -13,6 +13,7 @@ Decided:
   R03.7  the stop condition is exactly doneEffort >= effort (tolerance of at most half a second accepted)
   R03.8  the effort credited for a slot is pure arithmetic over the booked seconds and the efficiency:
          no rounding / truncation call on the way from book() to doneEffort
+  R03.9  the unused part of the final slot is released in both scheduling directions
 Not decided: sum = effort to one second (float rounding).
 """
 from __future__ import annotations
@@ -241,6 +242,9 @@ def run(ctx: Ctx):
     from .c06 import completion_test_rule
     completion_test_rule(ctx, "R03.7")
     ctx.floor("R03.7", 1)
+    from .c06 import release_rules
+    release_rules(ctx, "R03.9")
+    ctx.floor("R03.9", 2)
     ctx.floor("R03.1", 5)
     ctx.floor("R03.2", 5)
     ctx.floor("R03.3", 1)
